@@ -73,6 +73,7 @@ type PkgSpec struct {
 	Order     []string
 	Ghosts    []*GhostFunc
 	GhostVars []*GhostFunc
+	GhostTypes []string
 	Globals   []*Clause
 	Imports   []string
 	Lemmas    []*Lemma
@@ -184,6 +185,10 @@ func parseSpecFile(path, relDir string) (*PkgSpec, error) {
 			cur, curLemma = nil, nil
 		case "ghost":
 			src := strings.TrimSpace(it.text)
+			if mt := regexp.MustCompile(`^type\s+(\w+)\s*=?\s*(.+)$`).FindStringSubmatch(src); mt != nil {
+				ps.GhostTypes = append(ps.GhostTypes, src)
+				continue
+			}
 			if mv := regexp.MustCompile(`^var\s+(\w+)\s+(.+)$`).FindStringSubmatch(src); mv != nil {
 				ps.GhostVars = append(ps.GhostVars, &GhostFunc{Name: mv[1], Src: src, Line: it.line})
 				continue
@@ -394,6 +399,13 @@ func rewriteGroups(s string) string {
 				return b.String()
 			}
 			inner := s[i+1 : j]
+			if quantRe.MatchString(strings.TrimSpace(inner)) {
+				b.WriteByte(c)
+				b.WriteString(rewriteSpec(inner))
+				b.WriteByte(s[j])
+				i = j
+				continue
+			}
 			parts := splitTop(inner, ',')
 			for k, p := range parts {
 				if strings.TrimSpace(p) != "" {
@@ -500,11 +512,15 @@ func gh_abs(a int) int                    { if a < 0 { return -a }; return a }
 func gh_min(a, b int) int                 { if a < b { return a }; return b }
 func gh_max(a, b int) int                 { if a < b { return b }; return a }
 func gh_wrote() int                       { return 0 }
+func gh_count(lo, hi int, f func(int) bool) int { return 0 }
 func gh_unavail(err error) bool           { return err != nil }
 func gh_errIs(err, target error) bool     { return err == target }
 func gh_upd[K comparable, V any](m map[K]V, k K, v V) map[K]V { return m }
 func gh_mapEq[K comparable, V any](a, b map[K]V) bool { return len(a) == len(b) }
 `)
+	for _, g := range ps.GhostTypes {
+		b.WriteString(g + "\n")
+	}
 	for _, g := range ps.GhostVars {
 		b.WriteString(g.Src + "\n")
 	}
